@@ -2,3 +2,5 @@
 import Photon.Model.RangeSplit
 import Photon.Lemmas.RangeSplit
 import Photon.Properties.C15
+import Photon.Model.Path
+import Photon.Properties.C20
